@@ -75,13 +75,15 @@ Definition reads_reach_object (s : cls_spec) : bool :=
 Definition meta_persisted (s : cls_spec) : bool :=
   subset (meta s) (map fst (written s)) && subset (meta s) (map fst (rd_post s)).
 
+(** constructor parameters that are options rather than state: a copy may pass a constant for them *)
+Definition const_params : list string := ["vrnt_genpos_units"; "auto_group"; "auto_build_spline"].
 (** copies rebuild through the constructor with every constructor parameter and copy the group metadata;
     source and target attribute coincide *)
 Definition copy_covers (ctor post : list cpfield) (s : cls_spec) : bool :=
   subset (init_params s) (map ctgt ctor)
   && subset (map ctgt ctor) (init_params s)
   && subset (meta s) (map ctgt post)
-  && forallb (fun c => String.eqb (csrc c) "" || String.eqb (ctgt c) (csrc c)) (ctor ++ post)
+  && forallb (fun c => if String.eqb (csrc c) "" then smem (ctgt c) const_params else String.eqb (ctgt c) (csrc c)) (ctor ++ post)
   && nodup_s (map ctgt ctor ++ map ctgt post).
 Definition copied_superset (s : cls_spec) : bool := copy_covers (cp_ctor s) (cp_post s) s && copy_covers (dp_ctor s) (dp_post s) s.
 
